@@ -135,7 +135,6 @@ Proof.
     + constructor; simpl; auto. apply kill_dst. assumption.
     + destruct (defrouter st); (simpl; first [exact Hinv | constructor; assumption]).
   - unfold rx_ra. destruct (blen p <? 16); [(simpl; first [exact Hinv | constructor; assumption])|].
-    destruct (negb (List.length (hunt st) =? 0)%nat && chan_closed st); [(simpl; first [exact Hinv | constructor; assumption])|].
     destruct (negb (Z.rem (repeat_ st + 1) 4 =? 0)%Z); [(simpl; first [exact Hinv | constructor; assumption])|].
     destruct (negb hk); [(simpl; first [exact Hinv | constructor; assumption])|].
     destruct (ra_options p) as [o|e| |]; try ((simpl; first [exact Hinv | constructor; assumption])).
